@@ -399,6 +399,9 @@ def rebuild(proto, e):
     return proto.__class__(e)
 
 
+ITE_HOOKS = []   # fn(c, a, b) -> SV | None for value kinds defined outside this module (arrays)
+
+
 def ite(c, a, b):
     """structural if-then-else on symbolic values"""
     if is_true(c):
@@ -421,6 +424,23 @@ def ite(c, a, b):
         return a
     if isinstance(a, STup) and isinstance(b, STup) and len(a.items) == len(b.items):
         return STup([ite(c, x, y) for x, y in zip(a.items, b.items)])
+    ia = getattr(a, "items", None) if isinstance(a, (SList, STup)) else None
+    ib = getattr(b, "items", None) if isinstance(b, (SList, STup)) else None
+    if ia is not None and ib is not None and len(ia) == len(ib) and (isinstance(a, SList) or isinstance(b, SList)):
+        # sequences of the same concrete length (a list display / comprehension result and a tuple): element-wise
+        items = [ite(c, x, y) for x, y in zip(ia, ib)]
+
+        def at(i, items=items):
+            if not items:
+                return NONE
+            r = items[-1]
+            for j in range(len(items) - 2, -1, -1):
+                r = ite(simp(i == j), items[j], r)
+            return r
+
+        lst = SList(z3.IntVal(len(items)), at, True)
+        lst.items = items
+        return lst
     if isinstance(a, SList) and isinstance(b, SList):
         return SList(If(c, a.n, b.n), lambda i, a=a, b=b, c=c: ite(c, a.at(i), b.at(i)), a.fresh and b.fresh)
     if isinstance(a, SDict) and isinstance(b, SDict):
@@ -440,6 +460,10 @@ def ite(c, a, b):
         return SSet(lambda k: If(c, a.dom(k), b.dom(k)), card, a.kwrap)
     if isinstance(a, SPy) and isinstance(b, SPy) and a.what == b.what and a.payload == b.payload:
         return a
+    for h in ITE_HOOKS:
+        r = h(c, a, b)
+        if r is not None:
+            return r
     # different kinds: union
     alts = []
     for g, v in alts_of(a):
